@@ -88,6 +88,8 @@ fn alphabet() -> Vec<Tpl> {
         tpl("c = do {\n b = f\n return b(1)\n}", Some("c"), &["c"], &["b", "c", "f"]),
         // a nested assignment to the statement's own target; a do-block local that gives an outer function a new name
         tpl("a = (a = 1) + a", Some("a"), &["a", "a"], &["a"]),
+        tpl("(() => (b = 1))()", None, &[], &["b"]),
+        tpl("f = () => do {\n a = a + 1\n return a\n}", Some("f"), &["f"], &["a", "f"]),
         tpl("c = do {\n a = f\n return 1\n}", Some("c"), &["c"], &["a", "c", "f"]),
     ]
 }
@@ -138,6 +140,8 @@ struct Monitor<'a> {
     probes: BTreeMap<String, Vec<crate::rt::ROut>>,
     /// "ok" / "err" per statement run so far (a parse error is "err")
     statuses: Vec<&'static str>,
+    /// top-level names that were bound when each function-valued name was bound
+    bound_at_def: Vec<(Value, Vec<String>)>,
 }
 
 fn fp(h: &blots_core::heap::Heap, i: usize) -> Option<u64> {
@@ -151,7 +155,7 @@ fn env_map(sess: &Sess) -> BTreeMap<String, Value> {
 impl<'a> Monitor<'a> {
     fn new(sess: &'a Sess) -> Monitor<'a> {
         let inputs = sess.env.get("inputs").map(|v| sess.rval(&v)).unwrap_or(RVal::Null);
-        Monitor { sess, model: BTreeMap::new(), inputs_snapshot: inputs, heap_marks: Vec::new(), steps: 0, heap_check_every: 1, probes: BTreeMap::new(), statuses: Vec::new() }
+        Monitor { sess, model: BTreeMap::new(), inputs_snapshot: inputs, heap_marks: Vec::new(), steps: 0, heap_check_every: 1, probes: BTreeMap::new(), statuses: Vec::new(), bound_at_def: Vec::new() }
     }
 
     fn snapshot_heap(&mut self) {
@@ -298,7 +302,7 @@ impl<'a> Monitor<'a> {
         {
             let new_names: Vec<&String> = after.keys().filter(|k| !before.contains_key(*k)).collect();
             let mut now: BTreeMap<String, Vec<crate::rt::ROut>> = BTreeMap::new();
-            for (name, (_, snap)) in self.model.iter() {
+            for (name, (fval, snap)) in self.model.iter() {
                 if let RVal::Fn { body, .. } = snap {
                     if FORBIDDEN.contains(&name.as_str()) {
                         continue;
@@ -311,6 +315,34 @@ impl<'a> Monitor<'a> {
                         let same = prev.len() == results.len() && prev.iter().zip(results.iter()).all(|(p, q)| p.agrees(q));
                         if !same && !excused {
                             v.push(("function-behaviour-changed".to_string(), "a bound function returns something else for the same arguments after a later statement that bound none of its free names".to_string(), case(json!({"name": name, "function": snap.show(), "calls": [format!("{}(3)", name), format!("{}()", name)], "before": prev.iter().map(|r| r.show()).collect::<Vec<_>>(), "after": results.iter().map(|r| r.show()).collect::<Vec<_>>()}))));
+                        }
+                    }
+                    // I8 do-block locals and parameters of a caller are not visible inside the function: called from a block
+                    // (and from a function) whose locals (parameters) shadow every name of the small name set, it does what
+                    // it does at top level - provided each of those names its body mentions was bound when it was defined
+                    // (a free name not bound at definition is looked up at the call, by design)
+                    // (keyed by the function value, not the name: an alias bound later is the same, older function)
+                    let known: Vec<String> = match self.bound_at_def.iter().find(|(f, _)| f == fval) {
+                        Some((_, k)) => k.clone(),
+                        None => {
+                            let k: Vec<String> = before.keys().cloned().collect();
+                            self.bound_at_def.push((*fval, k.clone()));
+                            k
+                        }
+                    };
+                    let words: Vec<&str> = body.split(|c: char| !(c.is_alphanumeric() || c == '_')).collect();
+                    let small = ["a", "b", "c", "t"];
+                    if small.iter().filter(|n| words.contains(*n)).all(|n| known.iter().any(|k| k == n)) {
+                        for (call, top) in [format!("{}(3)", name), format!("{}()", name)].iter().zip(results.iter()) {
+                            let shadowers: Vec<&str> = small.iter().copied().filter(|n| *n != name.as_str()).collect();
+                            let in_block = format!("do {{\n{}\n return {}\n}}", shadowers.iter().map(|n| format!(" {} = 12345", n)).collect::<Vec<_>>().join("\n"), call);
+                            let in_call = format!("(({}) => {})({})", shadowers.join(", "), call, shadowers.iter().map(|_| "12345").collect::<Vec<_>>().join(", "));
+                            for (how, src) in [("do-block locals", in_block), ("parameters", in_call)] {
+                                let got = self.sess.rout(&self.sess.eval(&src));
+                                if !got.agrees(top) {
+                                    v.push(("caller-locals-visible-in-callee".to_string(), "a function called from a scope whose locals / parameters shadow outer names does something else than at top level".to_string(), case(json!({"name": name, "function": snap.show(), "shadowed_by": how, "call_site": src, "result": got.show(), "at_top_level": top.show()}))));
+                                }
+                            }
                         }
                     }
                     now.insert(name.clone(), results);
